@@ -118,8 +118,8 @@ def run(ctx, f, rep):
                     if ev.ncond is not None and ev.ncond > msg_cond_idx:
                         pos = k
                         break
-                if pos is not None:
-                    ys_after = [ev for ev in p.events[pos:] if ev.kind == "yield"]
+                if True:
+                    ys_after = [ev for ev in p.events[pos:] if ev.kind == "yield"] if pos is not None else []
                     if ys_after:
                         rep.bad("R14.2", "R14.2|%s|message-held-across-await" % ty,
                                 "%s: after a message item has been taken from a connection the future suspends again before returning it" % ty, co.loc(ys_after[0].bb))
